@@ -273,7 +273,13 @@ def _eval_all(mod, cases):
     if n <= 1 or len(cases) < 200:
         return [_eval_one(c) for c in cases]
     import multiprocessing as mp
-    with mp.get_context("fork").Pool(min(n, os.cpu_count() or 1)) as pool:
+    cores = os.cpu_count() or 1
+    n = min(n, cores)
+    try:   # share the machine: several checks may run at once
+        n = max(2, min(n, int(n * cores / max(float(cores), os.getloadavg()[0] + 1.0))))
+    except OSError:
+        pass
+    with mp.get_context("fork").Pool(n) as pool:
         return pool.map(_eval_one, cases, chunksize=max(1, len(cases) // (n * 8)))
 
 
